@@ -57,13 +57,21 @@ class Controller:
         from ramses_tx import exceptions as exc  # noqa: PLC0415
         from ramses_tx.packet import Packet  # noqa: PLC0415
 
-        n = len(self.calls)
         zone = int(cmd.payload[:2], 16) if cmd.code == "0404" else None
-        self.calls.append((zone, cmd.code, cmd.payload))
-        self.verbs.append(cmd.verb)
+        if kw.pop("_internal", False):
+            n = -1
+        else:
+            n = len(self.calls)
+            self.calls.append((zone, cmd.code, cmd.payload))
+            self.verbs.append(cmd.verb)
         act = self.plan.get(n)
+        waits = bool(kw.get("wait_for_reply"))            # as the protocol FSM reads it: None / False = the echo is enough
         if act == "raise":
             raise exc.ProtocolSendFailed("scripted loss")
+        if act == "lost-on-air":      # the dongle echoes the frame, the controller never hears it (every retransmission lost): a caller that waits
+            if waits:                 # for the reply gets the protocol's error; one that does not is handed the echo and is none the wiser
+                raise exc.ProtocolSendFailed("scripted loss on the air: no reply to any transmission")
+            return Packet.from_port(_dt.datetime.now(), "000 " + str(cmd).replace("18:000730", "18:111111"))
         if act == "hang":
             await asyncio.get_running_loop().create_future()   # never answers: only the caller's timeout ends this
         if isinstance(act, tuple) and act[0] == "bump":
@@ -72,6 +80,13 @@ class Controller:
             self.new_schedule(act[1], days=small_schedule(self.rng))
         await asyncio.sleep(1 / 64)
         now = _dt.datetime.now()
+        if not waits:                 # the caller does not wait for the reply: it gets its echo back; the controller still acts and answers on the air
+            echo = Packet.from_port(now, "000 " + str(cmd).replace("18:000730", "18:111111"))
+            try:
+                await self.send(cmd, **{**kw, "wait_for_reply": True, "_internal": True})
+            except exc.ProtocolSendFailed:
+                pass
+            return echo
         if cmd.code == "0006":
             return self.heard(Packet.from_port(now, f"045 RP --- {CTL} 18:000730 --:------ 0006 004 0005{self.counter:04X}"))
         k = int(cmd.payload[10:12], 16)
@@ -437,7 +452,7 @@ def run(ctx: Ctx) -> None:
         after = [wpos[-1] + 1] if wpos and wpos[-1] + 1 < base["calls"] else []          # the version query that follows the last fragment
         scns.append({"seed": seed, "plan": {}, "steps": wsteps, "dispatch": True, "n_aw": base["calls"], "pos": None, "kind": "write"})
         for pos in wpos + after:
-            for kind in ("raise", "hang"):
+            for kind in ("raise", "hang", "lost-on-air"):
                 scns.append({"seed": seed, "plan": {str(pos): kind}, "steps": wsteps, "dispatch": True, "n_aw": base["calls"], "pos": pos, "kind": "write+" + kind})
         scns.append({"seed": seed, "plan": {}, "steps": [("fetch", 0, 30), ("bump", 0)] + PROBES, "dispatch": True, "n_aw": n_aw, "pos": None, "kind": "change-between"})
     coq_cases, impl_rows = [], []
